@@ -4,7 +4,7 @@
    codes and feature bits are the definitions regenerated from the source
    (the Gen files); the control flow is written by hand and tied to the code by the
    correspondence family "be". *)
-From VV Require Import Base.Bits Base.Rt Base.Val Gen.GenConsts Gen.GenLayout Gen.GenFns Model.Transport.
+From VV Require Import Base.Bits Base.Rt Base.Val Gen.GenConsts Gen.GenLayout Gen.GenFns Gen.GenVrfd Model.Transport.
 Open Scope string_scope.
 Open Scope list_scope.
 Open Scope N_scope.
@@ -157,12 +157,13 @@ Definition vring_fd_request (buf : list N) (files : option (list N)) : rresult (
   if (N.to_nat MAX_MSG_SIZE <? List.length buf)%nat || (List.length buf <? fty_size VhostUserU64_layout)%nat
   then RErr EInvalidMessage
   else
+    (* the flag test, the refusal condition and the ring index are REGENERATED from handle_vring_fd_request (Gen.GenVrfd) *)
     let v := VhostUserU64_value (VhostUserU64_read buf 0) in
-    let has_fd := N.land v 256 =? 0 in
+    let has_fd := vrf_has_fd v in
     let no_files := match files with Some (_ :: _) => false | _ => true end in
     let file := take_single files in
-    if (has_fd && o_is_none file) || (negb has_fd && negb no_files) then RErr EInvalidMessage
-    else ROk (cast 8 v, file).
+    if vrf_reject has_fd (o_is_some file) no_files then RErr EInvalidMessage
+    else ROk (vrf_index v, file).
 
 Definition dispatch (cfg : be_cfg) (s : be_state) (o : N) (h : VhostUserMsgHeader) (files : option (list N))
            (size : N) (buf : list N) : be_state * be_out :=
